@@ -610,7 +610,8 @@ def record_session(arg):
     out = [{'sid': sid, 'k': 0, 'iu': iu, 'op': 'start', 'A': [], 'out': 'ok', 'cols': pc, 'rows': pr, 'meta_ok': pm,
             'input_same': True, 'dup_equal': True}]
     for k in range(1, rnd.randint(3, 14) + 1):
-        op, A, sp = enabled_steps(rnd, cols, rows, deep=(seed % 3 == 0))
+        # (deep copies and pickles only of samples loaded from a path: an open handle cannot be pickled, by design)
+        op, A, sp = enabled_steps(rnd, cols, rows, deep=loadform.FORMS[seed % len(loadform.FORMS)] in ('path', 'linkpath'))
         before = heapreplay.fingerprint(o)
         new, exc = apply_step(W, o, (op, A, sp))
         same = heapreplay.fingerprint(o) == before
